@@ -1,5 +1,6 @@
 import XotModel.Model.Tree
 import XotModel.Model.Env
+import XotModel.Model.IdMap
 import XotModel.Driver.TreeCodec
 
 namespace XotModel.Driver
@@ -7,6 +8,10 @@ namespace XotModel.Driver
 /-- Driver state carried from line to line. -/
 structure DState where
   env : Env := {}
+  /-- suite `idmap`: the interning tables under test (`Xot::new()` until `idmap new`) … -/
+  interner : Interner := Interner.new
+  /-- … and the second `Xot` made by `idmap clone` (`idmap swap` exchanges the two). -/
+  internerOther : Interner := Interner.new
 
 def parseStrList (w : String) : Option (List Str) :=
   if w == "-" then some [] else
